@@ -85,6 +85,20 @@ extern ssize_t mpt_encode_string(MPT_STRUCT(encode_state) *info, const struct io
 	}
 	/* delete buffered data */
 	if (!from->iov_base) {
+		/* long separator: only extent of message in progress is known */
+		if (sep) {
+			size_t cur = info->_ctx;
+			if (len > 1 || !cur) {
+				return MPT_ERROR(BadOperation);
+			}
+			if (cur > info->done) {
+				return MPT_ERROR(MissingData);
+			}
+			base += info->done;
+			memmove(base - cur, base, sep);
+			info->_ctx = 0;
+			return info->done -= cur;
+		}
 		/* no data available */
 		if (!off) {
 			return MPT_ERROR(MissingData);
